@@ -703,17 +703,23 @@ impl<'tcx> Cx<'tcx> {
             "n/a".to_string()
         };
         let is_const_fn = matches!(dk, DefKind::Fn | DefKind::AssocFn) && tcx.is_const_fn(did);
+        // reachable from outside the crate (effective visibility), not just declared `pub`
+        let reachable = match did.as_local() {
+            Some(l) if matches!(dk, DefKind::Fn | DefKind::AssocFn) => tcx.effective_visibilities(()).is_reachable(l),
+            _ => false,
+        };
         // parent impl (for assoc items)
         let parent = tcx.opt_parent(did).map(|p| q(&self.path(p))).unwrap_or("null".to_string());
         let name = tcx.opt_item_name(did).map(|s| q(s.as_str())).unwrap_or("null".to_string());
         format!(
-            "{{\"path\":{},\"name\":{},\"parent\":{},\"defkind\":{},\"vis\":{},\"const_fn\":{},\"generics\":{},\"arg_count\":{},\"span\":{},\"locals\":{},\"blocks\":{}{}}}",
+            "{{\"path\":{},\"name\":{},\"parent\":{},\"defkind\":{},\"vis\":{},\"const_fn\":{},\"reachable\":{},\"generics\":{},\"arg_count\":{},\"span\":{},\"locals\":{},\"blocks\":{}{}}}",
             q(&self.path(did)),
             name,
             parent,
             q(&format!("{:?}", dk)),
             q(&vis),
             is_const_fn,
+            reachable,
             self.generics(did),
             body.arg_count,
             q(&self.span(body.span)),
